@@ -35,17 +35,37 @@ ID = 'C18'
 MODULE = 'EmsModel.Props.C18'
 DRIVER = 'C18'
 REQUIRED = ['Ems.C18.segment_start_le_end', 'Ems.C18.segments_sorted', 'Ems.C18.segment_names_cell',
-            'Ems.C18.coverage_1d', 'Ems.C18.data_pairing', 'Ems.C18.miss_is_empty', 'Ems.C18.segments_perm']
+            'Ems.C18.coverage_1d', 'Ems.C18.data_pairing', 'Ems.C18.miss_is_empty', 'Ems.C18.segments_perm',
+            'Ems.C18.clip_sound', 'Ems.C18.clip_complete', 'Ems.C18.clip_none_iff', 'Ems.C18.clip_piece_iff',
+            'Ems.C18.clip_path_sound', 'Ems.C18.clip_path_complete', 'Ems.C18.segments_within_cells',
+            'Ems.C18.disjoint_interiors_pieces_overlap_only_on_boundaries', 'Ems.C18.shared_edge_same_piece']
 RULE = ('grids (CF 1-D, CF 2-D / SHOC simple with stored bounds and holes, SHOC standard with masked nodes) and UGRID meshes '
         '(triangles, quads, concave, collinear, dropped cells) on unsheared integer lattices x polylines with vertices on the '
         'half-integer lattice and axis-parallel / 45-degree legs (so every cut point is exactly representable): several vertices, '
         'starting / ending inside or outside, crossing holes, running along cell edges, leaving and re-entering a cell, missing '
-        'the model. The line pieces per cell given to the model come from an exact Fraction clipper (harness/gen/pathclip.py), '
-        'not from GEOS. Compared: (cell, start, end) of every segment in path order; prepared data columns. Oracle: each segment '
-        'lies in its cell, indexes coherent, start <= end, path order, lengths add up to the path length inside the model, '
-        'data pairing. Non-trivial: >= 3 segments, or a hole / re-entry / edge-running stretch; distinct by (recipe, path).')
-TRUSTED = ['GEOS polygon-line intersection on exactly representable cut points; cartopy / PROJ distances are only used for ordering']
-ASSUMPTIONS = ['metric lengths depend on PROJ floating point: only parameter-space coverage is proved; planar lengths are compared with a 1e-9 relative tolerance in the oracle']
+        'the model. The reference for the line pieces is the Lean clipper of Core/PathClip.lean, run by the driver on the '
+        "generator's cell polygons and the path: `transect <path> <all cells>` (clip every cell, build and sort the segments) is "
+        'compared with (cell, start, end) of every segment of the real Transect in path order, and `clip <cell> <path>` with the '
+        'pieces GEOS returned for every cell that the real Transect reports or the independent Fraction clipper '
+        '(harness/gen/pathclip.py) says is crossed; contiguous pieces of one cell are merged on both sides. Convex cells go '
+        'through clipPathConvex (proved exact: clip_sound / clip_complete), which the driver also requires to agree with the '
+        'event-based clipPathSimple; concave mesh faces go through clipPathSimple; `convex` is compared with GEOS (hull area = '
+        'area), `propcheck` re-tests ends and midpoint of every Lean piece with the exact point-in-polygon. The pieces of '
+        'gen/pathclip.py still feed the older `segments` line and an oracle comparison with GEOS, as a cross-check independent '
+        'of Lean. Also compared: prepared data columns. Oracle: each segment lies in its cell, is not a single point, indexes '
+        'coherent, start <= end, path order, pieces equal to the exact Fraction clip, lengths add up to the path length inside '
+        'the model, data pairing. Non-trivial: >= 3 segments, or a hole / re-entry / edge-running stretch; distinct by '
+        '(recipe, path).')
+TRUSTED = ['GEOS polygon-line intersection itself (compared on every case with the proved Lean clipper on exactly representable cut '
+           'points, never proved); cartopy / PROJ distances are only used for ordering',
+           'for concave mesh faces the Lean reference is the event-based clipPathSimple (no theorem; agrees with the proved convex '
+           'clipper on every convex cell met, and with harness/gen/pathclip.py)',
+           'insideConvex (intersection of the edge half-planes) is the cell polygon only for convex rings: `convex` is decided in Lean '
+           'and compared with GEOS; that the half-plane set of a convex ring equals the ring\'s polygon is classical geometry, not proved']
+ASSUMPTIONS = ['metric lengths depend on PROJ floating point: only parameter-space coverage is proved; planar lengths are compared with a 1e-9 relative tolerance in the oracle',
+               'segments_within_cells is proved for convex cells (CF grids, SHOC, convex mesh faces); for concave mesh faces "lies within its cell" rests on the correspondence and the oracle']
+LEVEL_NOTE = ('the clipping of the path against a convex cell is part of the Lean model and proved exact (every point of a piece is in '
+              'the cell, every point of the leg in the cell is in the piece); GEOS is compared against it, not against Python code')
 
 DEPTH_NAME = {'cf1d': 'depth', 'cf2d': 'depth', 'shoc_simple': 'zc', 'shoc_standard': 'z_centre', 'ugrid': 'depth'}
 
@@ -60,6 +80,10 @@ def split_at_vertices(a, b) -> list:
     import math
     cuts = [a] + [Fraction(k) for k in range(math.floor(a) + 1, math.ceil(b)) if a < k < b] + [b]
     return list(zip(cuts, cuts[1:]))
+
+
+def ring_str(pts) -> str:
+    return ';'.join(f'{rat(x)},{rat(y)}' for x, y in pts)
 
 
 def make_path(rng, xs, ys) -> list:
@@ -128,6 +152,16 @@ def examine(ctx, recipe, items) -> None:
     ys = [p[1] for q in cells for p in q]
     polys = conv.polygons
     var = next((n for n, i in built.vars.items() if i.kind == 'face' and 'k' in i.dims), None)
+    # the Lean `convex` test decides which clipper is the reference for a cell; GEOS's view of the same ring (generator ground truth)
+    cvx = {}
+    for n, q in enumerate(kept):
+        if q is None:
+            continue
+        gp = shapely.Polygon([(float(x), float(y)) for x, y in q])
+        cv = '1' if gp.area > 0 and gp.convex_hull.area == gp.area else '0'
+        cvx[n] = cv
+        ctx.count(f'cell-convex:{cv}')
+        items.append((f'convex {ring_str(q)}', cv, {'recipe': recipe, 'cell': n, 'op': f'convex {ring_str(q)}'}))
     for _ in range(3):
         path = make_path(rng, xs, ys)
         # a track may carry a third ordinate (altitude of the instrument, say): the cells are two-dimensional and the
@@ -176,6 +210,22 @@ def examine(ctx, recipe, items) -> None:
         canon = sorted(((n, a, b) for n, ivs in merged.items() for a, b in ivs), key=lambda g: (g[1], g[2], g[0]))
         out = '|'.join(f'{n},{rat(a)},{rat(b)}' for n, a, b in canon) or '(none)'
         items.append((mline, out, {**desc, 'op': mline}))
+        # ---- the Lean clipper as the reference: whole transect, then cell by cell ------------------------------
+        pstr = ring_str(path)
+        cells_s = '|'.join(f'{n}={ring_str(q)}' for n, q in enumerate(kept) if q is not None) or '-'
+        tline = f'transect {pstr} {cells_s}'
+        items.append((tline, out, {**desc, 'op': tline}))
+        for n in sorted(set(merged) | {n for n, _ in truth}):
+            if not (0 <= n < len(kept)) or kept[n] is None:
+                continue        # a segment of a cell without geometry: the oracle below reports it
+            want = ','.join(f'{rat(a)}:{rat(b)}' for a, b in merged.get(n, [])) or '-'
+            cline = f'clip {ring_str(kept[n])} {pstr}'
+            items.append((cline, want, {**desc, 'cell': n, 'op': cline}))
+            pline = f'propcheck {ring_str(kept[n])} {pstr}'
+            items.append((pline, 'ok', {**desc, 'cell': n, 'op': pline}))
+            ctx.count('clip-pairs:convex-cell(proved clipper)' if cvx.get(n) == '1' else 'clip-pairs:concave-cell(event clipper)')
+            if len(merged.get(n, [])) >= 2:
+                ctx.count('clip-pairs:cell-left-and-re-entered')
         n_seg = len(got)
         total_cells = {n for n, _, _ in got}
         reentry = len(got) != len(total_cells)
@@ -189,6 +239,10 @@ def examine(ctx, recipe, items) -> None:
         for s, (n, a, b) in zip(segs, got):
             if not (a <= b) or not (s.start_distance <= s.end_distance):
                 ctx.oracle_fail('segment-start-after-end', desc, f'cell {n}: start {a} end {b}')
+                break
+            if a == b:
+                ctx.oracle_fail('segment-is-a-single-point', desc, f'cell {n}: a segment that starts and ends at path parameter {a} '
+                                '(a point touch is not a piece of the path inside the cell)')
                 break
             if polys[n] is None or not polys[n].buffer(1e-9).covers(s.intersection):
                 ctx.oracle_fail('segment-outside-its-cell', desc, f'segment {s.intersection.wkt} is not within cell {n}')
@@ -213,6 +267,13 @@ def examine(ctx, recipe, items) -> None:
                             + (f'; cells {dup[:3]} report the same stretch' if dup else ''))
         if not truth and segs:
             ctx.oracle_fail('segments-for-a-miss', desc, 'the path misses every cell but segments were reported')
+        # independent of Lean: the pieces per cell are the exact Fraction clip of the path against the cell
+        exact = sorted((n, a, b) for n, ivs in truth for a, b in ivs)
+        reported = sorted((n, a, b) for n, ivs in merged.items() for a, b in ivs)
+        if exact != reported:
+            diff = sorted(set(exact) ^ set(reported))[:4]
+            ctx.oracle_fail('segments-differ-from-exact-clip', desc, 'per cell, the stretches of the path reported differ from the exact '
+                            f'clip of the path against the cell polygon: {[(n, str(a), str(b)) for n, a, b in diff]}')
         # data pairing
         if var is not None and segs:
             da = ds[var]
@@ -236,10 +297,28 @@ def examine(ctx, recipe, items) -> None:
             items.append((cl, ';'.join(','.join(str(int(v)) for v in row) for row in gotv), {**desc, 'op': cl}))
 
 
-def make_recipe(ctx, k):
+def has_concave_face(recipe) -> bool:
+    for q in G.build(recipe).polys:
+        if q is None:
+            continue
+        m = len(q)
+        turns = [PC.cross(q[i], q[(i + 1) % m], q[(i + 2) % m]) for i in range(m)]
+        if any(t > 0 for t in turns) and any(t < 0 for t in turns):
+            return True
+    return False
+
+
+def make_recipe(ctx, k, concave: bool = False):
     rng = ctx.rng
-    conv = G.CONVS[k % len(G.CONVS)]
-    if conv == 'cf1d':
+    conv = 'ugrid' if concave else G.CONVS[k % len(G.CONVS)]
+    if concave:
+        # the stream of meshes with a concave face (L-shaped hexagons, pentagons with a reflex vertex): the cells the
+        # event-based clipper is the reference for, and the ones a path leaves and re-enters
+        for _ in range(12):
+            recipe = G.random_ugrid(rng, max_w=3, max_h=3, sheared=False, coords_as='vars', tables=[], edge_dim_declared=False)
+            if has_concave_face(recipe):
+                break
+    elif conv == 'cf1d':
         recipe = G.random_cf1d(rng, max_n=5, bounds='contig')
         recipe['lat'] = [v % 40 - 20 for v in recipe['lat']]
         recipe['lat'] = sorted(set(recipe['lat'])) if len(set(recipe['lat'])) >= 2 else [0, 2, 4]
@@ -263,6 +342,9 @@ def run(ctx) -> None:
     items: list = []
     for k in range(ctx.budget(40, 300)):
         recipe = make_recipe(ctx, k)
+        ctx.guarded(lambda: examine(ctx, recipe, items), {'recipe': recipe})
+    for k in range(ctx.budget(8, 60)):
+        recipe = make_recipe(ctx, k, concave=True)
         ctx.guarded(lambda: examine(ctx, recipe, items), {'recipe': recipe})
     if ctx.searching and ctx.driver is None:
         ctx.evaluated(len(items))
